@@ -58,6 +58,26 @@ def step20 (limit : Nat) (st : M20) (x : TEntry) : Option M20 :=
 
 def P20 (limit silent : Nat) (tr : Trace) : Bool := checkTrace (step20 limit) { silent := silent, alive := true } tr
 
+/-! ### C14 (connection-task side): own-state broadcasts become exactly the matching messages -/
+
+/-- What the entry of a `SendOwnState` broadcast for this connection must put on the wire. -/
+def expect14 : Option Bool → List Obs
+  | some true => [.write .choke]
+  | some false => [.write .unchoke]
+  | none => []
+
+/-- C14 monitor (state: the task is alive). Every own-state broadcast is answered by exactly the message that
+    corresponds to this connection's entry of the map — `Choke` for "now choked", `Unchoke` for "now unchoked", nothing
+    when the connection's state did not change — and it never ends the task; after the task has ended nothing is
+    emitted. -/
+def step14 (alive : Bool) (x : TEntry) : Option Bool :=
+  if !alive then (if deadOk x then some alive else none) else
+  match x with
+  | (.bcState entry, obs, ended) => if obs = expect14 entry ∧ ended = none then some true else none
+  | (_, _, ended) => some ended.isNone
+
+def P14 (tr : Trace) : Bool := checkTrace step14 true tr
+
 /-! ### C08: only peers of the same torrent (and expected identity) are served -/
 
 structure M08 where
